@@ -522,4 +522,24 @@ def random_container(rng, kind, data, mtime=0, name="x.log"):
     raise ValueError(kind)
 
 
+def mtime_around(rng, lo_s, hi_s):
+    """a modification time (seconds) that owes nothing to the content: 1970, well before / just before / inside / just
+    after / long after the span [lo_s, hi_s] of what the file holds, 2090. For sources whose messages carry their own full
+    dates the modification time (of the file, in a gz header, of a tar member) must not influence what is printed."""
+    r = rng.randrange(7)
+    if r == 0:
+        return 86400 + rng.randrange(1000)
+    if r == 1:
+        return max(1, lo_s - 400 * 86400)
+    if r == 2:
+        return max(1, lo_s - rng.choice((1, 60, 3600)))
+    if r == 3:
+        return max(1, rng.randint(lo_s, max(lo_s, hi_s)))
+    if r == 4:
+        return hi_s + rng.choice((0, 1, 3600))
+    if r == 5:
+        return hi_s + 400 * 86400
+    return 3786912000 + rng.randrange(1000)
+
+
 SUFFIX = {"plain": "", "gz": ".gz", "bz2": ".bz2", "xz": ".xz", "lz4": ".lz4"}
